@@ -30,6 +30,7 @@ def corruption_lines(kind, rng_word):
         "set-no-equals": ([".set zz_%s" % w], True, False),
         "unknown-directive": ([".bogus_%s 5" % w], True, False),
         "db-two-values-no-comma": ([".db 1 2"], True, False),
+        "dw-unclosed-paren": ([".dw (1 + 2"], True, False),
         "duplicate-label": (["dup_%s:" % w, ".db 1", "dup_%s:" % w], True, False),
         "missing-include": (['.include "nothere_%s.inc"' % w], True, False),
         "missing-binfile": (['.binfile "nothere_%s.bin"' % w], True, False),
@@ -67,6 +68,7 @@ def corruption_lines(kind, rng_word):
         "duplicate-equ-directive": (["de_%s:" % w, ".equ de_%s = 5" % w, ".db 1"], True, False),
         "duplicate-macro": ([".macro DM_%s" % w, ".db 1", ".endm", ".macro DM_%s" % w, ".db 2", ".endm", "DM_%s" % w], True, False),
         "set-no-name": ([".set"], True, False),
+        "set-on-a-label": (["sl_%s:" % w, ".set sl_%s = 5" % w, ".db 1"], True, False),
         # errors that end the process from inside the tokenizer / macro expander
         "token-too-long": (["x" * 2000], True, False),
         "string-too-long": ([".ascii \"" + "s" * 2000 + "\""], True, False),
@@ -80,13 +82,13 @@ def corruption_lines(kind, rng_word):
 
 
 KINDS = ["unknown-mnemonic", "undefined-symbol", "undefined-symbol-dw", "out-of-range-db", "out-of-range-dw",
-         "org-no-operand", "set-no-equals", "unknown-directive", "db-two-values-no-comma", "duplicate-label",
+         "org-no-operand", "set-no-equals", "unknown-directive", "db-two-values-no-comma", "dw-unclosed-paren", "duplicate-label",
          "missing-include", "missing-binfile", "unterminated-quote", "ifdef-no-label", "if-no-expression",
          "if-bad-expression", "if-stray-close-paren", "unterminated-if", "unterminated-ifdef", "stray-else", "stray-endif", "stray-endr",
          "stray-endm", "unterminated-macro", "unterminated-comment", "unterminated-repeat",
          "define-self", "define-mutual", "define-chain-129", "define-chain-stmt", "macro-recursive",
          "div-zero", "div-zero-after-add", "div-zero-before-add", "mod-zero-after-mul", "div-zero-in-parens", "div-zero-via-equ",
-         "duplicate-define", "duplicate-equ-directive", "duplicate-macro", "set-no-name", "equ-no-name", "token-too-long", "string-too-long",
+         "duplicate-define", "duplicate-equ-directive", "duplicate-macro", "set-no-name", "set-on-a-label", "equ-no-name", "token-too-long", "string-too-long",
          "db-trailing-comma", "db-empty", "define-empty", "operand-drop", "operand-extra", "punct-swap", "truncate", "number-extreme", "hash-no-value"]
 LINE_KINDS = ("operand-drop", "operand-extra", "punct-swap", "truncate", "number-extreme", "hash-no-value")
 NUM_LIT = re.compile(r"(?<![\w.$])(0x[0-9a-fA-F]+|\d+)\b")
@@ -94,8 +96,8 @@ EXTREMES = [-1, -129, -32769, 5, 7, 0x81, 255, 256, 0x1001, 65535, 65536, 0x1234
 PLACES = ["top", "in-macro", "in-include", "in-repeat", "in-if", "in-nested-if", "in-else", "in-ifdef", "in-deep-if"]
 STRUCT_PLACES = ["top", "in-include", "at-end"]
 
-DIRECTED = [(k, p) for k in KINDS[:44] for p in PLACES if not corruption_lines(k, "x")[2]] + \
-           [(k, p) for k in KINDS[:44] for p in STRUCT_PLACES if corruption_lines(k, "x")[2]]
+DIRECTED = [(k, p) for k in KINDS[:46] for p in PLACES if not corruption_lines(k, "x")[2]] + \
+           [(k, p) for k in KINDS[:46] for p in STRUCT_PLACES if corruption_lines(k, "x")[2]]
 
 ERR_LINE = re.compile(r"Error")
 FAIL_DIAG = re.compile(r"Error|Cannot open|Couldn't open|Unknown |Failed|bailing|not supported|No input|Usage")
